@@ -1,14 +1,5 @@
 //! vrt: run-time checks over the compiled type zoo.
-mod c03;
-mod c04;
-mod c05;
-mod c06;
-mod c08b;
-mod c17;
-mod c18b;
-mod c19;
-mod common;
-mod uper;
+use vrt::*;
 
 #[global_allocator]
 static ALLOC: c04::Counting = c04::Counting;
@@ -16,6 +7,13 @@ static ALLOC: c04::Counting = c04::Counting;
 fn main() {
     vcore::harness::install_quiet_panic_hook();
     let args: Vec<String> = std::env::args().skip(1).collect();
+    if args.first().map(|s| s.as_str()) == Some("fuzz-corpus") {
+        // vrt fuzz-corpus <dir> <seed>: seed corpus of the decoders fuzz target
+        let zoo = common::load_zoo();
+        let n = c04::fuzz_corpus(&zoo, std::path::Path::new(&args[1]), args.get(2).and_then(|s| s.parse().ok()).unwrap_or(1), 3);
+        println!("{n} corpus files");
+        return;
+    }
     let ctx = vcore::harness::Ctx::from_args(&args);
     let code = match ctx.prop.as_str() {
         "C01" => uper::run_c01(ctx),
